@@ -611,8 +611,11 @@ class Model:
             for mask in range(1 << len(soft)):
                 keep = {soft[i] for i in range(len(soft)) if mask >> i & 1}
                 for cancel in (False, True):
-                    for stale_pk in (False, True):
-                        a = self._flush_one(at_commit, keep, stale, cancel, stale_pk)
+                    base = self._flush_one(at_commit, keep, stale, cancel, False)
+                    cands = sorted(base["stale_cands"], key=repr)
+                    subsets = [False] + [frozenset(cands[i] for i in range(len(cands)) if mask2 >> i & 1) for mask2 in range(1, 1 << min(len(cands), 3))]
+                    for stale_pk in subsets:
+                        a = base if stale_pk is False else self._flush_one(at_commit, keep, stale, cancel, stale_pk)
                         key = a["post"].canon() if not a["must_error"] else ("err", a["why"])
                         if key in seen:
                             continue
@@ -759,6 +762,7 @@ class Model:
                 may_err = True  # takes a key that another row gives up in the same flush: statement order decides
             popped.append([rows[t.name].pop(old, None) for t in c.tabs])
         stale_rows = {}
+        stale_cands = set()
         for (n, o, c, old, new_), prs in zip(moves, popped):
             for t, r in zip(c.tabs, prs):
                 if r is not None:
@@ -816,10 +820,13 @@ class Model:
                     else:
                         # parent not in the session: "will not proceed"; the column keeps its value
                         warn_dead = "related object %s of %s not in session" % (p, n)
-                if stale_pk and o.life == "S" and ((l.name, o.dbpk) in stale_rows or (l.name, pk) in stale_rows):
-                    # passive_updates=False: the renamed parent's collection is loaded from the database during the
-                    # flush and every row found there follows the new key, whatever the objects say
-                    tr[l.fk] = stale_rows.get((l.name, o.dbpk), stale_rows.get((l.name, pk)))
+                sk = (l.name, o.dbpk) if (l.name, o.dbpk) in stale_rows else ((l.name, pk) if (l.name, pk) in stale_rows else None)
+                if sk is not None and o.life == "S" and tr[l.fk] != stale_rows[sk]:
+                    stale_cands.add(sk)
+                    if stale_pk and sk in stale_pk:
+                        # passive_updates=False: the renamed parent's collection is loaded from the database during the
+                        # flush and a row found there follows the new key, whatever the objects say
+                        tr[l.fk] = stale_rows[sk]
         # ---- association rows
         for mm_ in spec.m2ms:
             a = assoc[mm_.table]
@@ -881,8 +888,8 @@ class Model:
             o.dbpk = m.pk(n)
         # normalise: nobody keeps a reference to a deleted object
         for k, v in list(m.par.items()):
-            if v is not None and m.objs[v].life == "X":
-                m.par[k] = None
+            if v is not None and m.objs[v].life == "X" and m.objs[k[1]].life == "S":
+                m.par[k] = None  # (objects outside the session keep what they hold in memory)
             if m.objs[k[1]].life == "X":
                 del m.par[k]
         for k in list(m.mm):
@@ -904,7 +911,7 @@ class Model:
         if warn_dead:
             m.dead = warn_dead
         m.soft = {k for k in m.soft if k in m.deparented}
-        return dict(post=m, mixed_switch=mixed_switch, may_err=may_err, union_cycle=self._union_cycle(self.rows, rows), error=bool(bad or alt_err or open_ or may_err),
+        return dict(post=m, stale_cands=stale_cands, mixed_switch=mixed_switch, may_err=may_err, union_cycle=self._union_cycle(self.rows, rows), error=bool(bad or alt_err or open_ or may_err),
                     must_error=bool(bad or alt_err) and not open_, open=open_, why=(m._violations(rows, assoc, at_commit) or ("duplicate key" if dup else None) or ("pending child of deleted parent" if alt_err else None)))
 
     def _union_cycle(self, old, new):
